@@ -745,6 +745,6 @@ func (l lazyRW) Read(ctx context.Context) (*Rpc, error) {
 func (l lazyRW) Write(ctx context.Context, r *Rpc) error { return l.get().Write(ctx, r) }
 
 func init() {
-	Register(&Family{Name: "c19.transports", Props: []string{"C19"}, New: func() any { return &TransportParams{} }, Gen: genTransport, Exec: execTransport,
+	Register(&Family{Name: "c19.transports", ShrinkKeys: []string{"envs", "raw", "tick_at"}, Props: []string{"C19"}, New: func() any { return &TransportParams{} }, Gen: genTransport, Exec: execTransport,
 		Faulty: true, FaultKinds: []string{"ctx.cancel", "peer.malformed", "clock.jump"}})
 }
